@@ -7,7 +7,8 @@ from props.graphfacts import conclude, replay, run_graph_property  # noqa: F401
 THEOREMS = ["Rva.markLoop_own", "Rva.mark_reachable_owner", "Rva.mem_insNat",
             "Rva.markLoop_closed", "Rva.mark_complete", "Rva.mark_sound", "Rva.body_is_reachable_set",
             "Rva.markStep_body", "Rva.function_entries_are_call_targets", "Rva.called_labels_are_entries",
-            "Rva.entry_iff_called"]
+            "Rva.entry_iff_called", "Rva.markLoop_terminates", "Rva.markAllDone_true",
+            "Rva.directions_outSmall", "Rva.pipeline_markup_terminates"]
 
 
 def oracle(src, blk, rng):
@@ -21,7 +22,7 @@ def oracle(src, blk, rng):
 
 
 def run(res, tier, seed):
-    proof_ok = proof_stage(res, "Rva.Proofs.C11b", THEOREMS, extra_modules=["Rva.Proofs.C11"])
+    proof_ok = proof_stage(res, "Rva.Proofs.C11d", THEOREMS, extra_modules=["Rva.Proofs.C11", "Rva.Proofs.C11b", "Rva.Proofs.C11c"])
     res.cov["rule"] = ("generated programs + corpus (several labels per entry, shared tails, recursion, multiple "
                        "returns, handlers with ret and uret); on the real finished graph: function entries = "
                        "called labels, body = reachable set (independent DFS), owners consistent, single exit "
